@@ -220,3 +220,290 @@ Proof.
   intros W [L H]. split; [assumption|]. intros i n n' H1 H2. destruct (H i n n' H1 H2) as [Hs Hk].
   split; [assumption|]. intros k. destruct (Hk k) as [E|[v [E1 E2]]]; [now left|right; eauto].
 Qed.
+
+(* ---------------------------------------------------------------------------------- *)
+(* proposers whose assignments satisfy P                                               *)
+(* ---------------------------------------------------------------------------------- *)
+Section Tuning.
+  Variable obj : graph -> fitness.
+  Variable sp : space.
+  Variable cfg : config.
+  Variable P : nat -> string -> string -> value -> Prop.
+
+  Notation tunable := (tunable sp).
+
+  (* the sequential tuner hands step k to the k-th tunable node of the order *)
+  Fixpoint seq_ok (g0 : graph) (order : list nat) (steps : list seq_step) : Prop :=
+    match order with
+    | [] => True
+    | i :: order' =>
+        match nth_error g0 i with
+        | None => True
+        | Some n =>
+            if tunable n then
+              match steps with
+              | [] => True
+              | s :: steps' =>
+                  Forall (dict_ok_node P g0 i) (st_trials s) /\ dict_ok_node P g0 i (st_best s) /\
+                  seq_ok g0 order' steps'
+              end
+            else seq_ok g0 order' steps
+        end
+    end.
+
+  Definition proposer_ok (g0 : graph) (p : proposer) : Prop :=
+    match c_kind cfg with
+    | Sequential inv => seq_ok g0 (nodes_order inv (List.length g0)) (p_steps p)
+    | _ => Forall (dict_ok_graph P g0) (p_trials p) /\
+           (forall d, p_final p = Some d -> dict_ok_graph P g0 d) /\
+           Forall (dict_ok_graph P g0) (p_bests p)
+    end.
+
+  Lemma sim_trials_evolves g0 ts : forall g1,
+    evolves P g0 g1 -> Forall (dict_ok_graph P g0) ts -> evolves P g0 (fst (sim_trials obj g1 ts)).
+  Proof.
+    induction ts as [|d ts IH]; intros g1 E F; simpl; [exact E|].
+    inversion F as [|? ? Fd Ft]; subst.
+    pose proof (step_graph P g0 g1 d E Fd) as E'.
+    destruct (gmv obj (set_arg_graph g1 d)); simpl; auto.
+  Qed.
+
+  Lemma lib_trials_evolves g0 k ts : forall g1 b,
+    evolves P g0 g1 -> Forall (dict_ok_graph P g0) ts -> evolves P g0 (fst (lib_trials obj k g1 ts b)).
+  Proof.
+    induction ts as [|d ts IH]; intros g1 b E F; simpl; [exact E|].
+    inversion F as [|? ? Fd Ft]; subst. apply IH; [|assumption]. now apply step_graph.
+  Qed.
+
+  Lemma seq_node_trials_evolves g0 i ts : forall g1 g2,
+    evolves P g0 g1 -> Forall (dict_ok_node P g0 i) ts ->
+    seq_node_trials obj g1 i ts = Ok g2 -> evolves P g0 g2.
+  Proof.
+    induction ts as [|d ts IH]; intros g1 g2 E F; simpl.
+    - intros H. injection H as <-. exact E.
+    - inversion F as [|? ? Fd Ft]; subst.
+      pose proof (step_node P g0 g1 i d E Fd) as E'.
+      destruct (gmv obj (set_arg_node g1 i d)); try discriminate; intros H; eapply IH; eauto.
+  Qed.
+
+  Lemma tunable_name n n' : name n' = name n -> tunable n' = tunable n.
+  Proof. unfold Tuner.tunable. now intros ->. Qed.
+
+  Lemma seq_loop_evolves g0 order : forall steps st fg,
+    evolves P g0 (ss_graph st) -> evolves P g0 (ss_final st) -> seq_ok g0 order steps ->
+    seq_loop obj sp order steps st = Ok fg -> evolves P g0 fg.
+  Proof.
+    induction order as [|i order IH]; intros steps st fg Eg Ef Hok; simpl.
+    - intros H. injection H as <-. exact Ef.
+    - destruct (nth_error (ss_graph st) i) as [n1|] eqn:E1; [|discriminate].
+      destruct (evolves_nth P g0 _ i n1 Eg E1) as [n0 [E0 [Hs _]]].
+      simpl in Hok. rewrite E0 in Hok.
+      rewrite (tunable_name n0 n1 (skel_name _ _ Hs)).
+      destruct (tunable n0); simpl.
+      + destruct steps as [|s steps']; [discriminate|].
+        destruct Hok as [Ft [Fb Hok]].
+        destruct (seq_node_trials obj (ss_graph st) i (st_trials s)) as [g1|e] eqn:En; [|discriminate].
+        pose proof (seq_node_trials_evolves g0 i _ _ _ Eg Ft En) as E1'.
+        pose proof (step_node P g0 g1 i (st_best s) E1' Fb) as E2.
+        intros H. eapply IH; [| |exact Hok|exact H]; simpl; [exact E2|].
+        destruct (metric_le (st_loss s) (ss_best st)); assumption.
+      + intros H. eapply IH; eauto.
+  Qed.
+
+  Lemma run_tune_evolves g p init t :
+    proposer_ok g p -> run_tune obj sp cfg p init g = Ok t ->
+    match t with
+    | TOne tg => evolves P g tg
+    | TMany tgs => Forall (evolves P g) tgs
+    end.
+  Proof.
+    unfold proposer_ok, run_tune. destruct (c_kind cfg) as [|inv| |] eqn:K.
+    - (* simultaneous *)
+      intros [Ft [Ff _]]. unfold tune_simultaneous.
+      destruct (check_possible cfg false (has_params sp g) true init).
+      + pose proof (sim_trials_evolves g (p_trials p) g (evolves_refl P g) Ft) as E.
+        destruct (sim_trials obj g (p_trials p)) as [g1 ab]. simpl in E.
+        destruct ab.
+        * intros H. injection H as <-. exact E.
+        * destruct (p_final p) as [d|] eqn:Fd; intros H; injection H as <-; [|exact E].
+          apply step_graph; auto.
+      + intros H. injection H as <-. apply evolves_refl.
+    - (* sequential *)
+      intros Hok. unfold tune_sequential.
+      destruct (negb (is_nil g) && check_possible cfg false true true init).
+      + destruct (seq_loop obj sp (nodes_order inv (List.length g)) (p_steps p)
+                   {| ss_graph := g; ss_final := g; ss_best := init |}) as [fg|e] eqn:E; [|discriminate].
+        intros H. injection H as <-.
+        eapply seq_loop_evolves; [| |exact Hok|exact E]; simpl; apply evolves_refl.
+      + intros H. injection H as <-. apply evolves_refl.
+    - (* optuna *)
+      intros [Ft [Ff Fb]]. unfold tune_lib.
+      destruct (check_possible cfg true (has_params sp g) true init).
+      + simpl.
+        pose proof (lib_trials_evolves g (metric_len init) (p_trials p) g false (evolves_refl P g) Ft) as E.
+        destruct (lib_trials obj (metric_len init) g (p_trials p) false) as [g1 ok]. simpl in E.
+        destruct (Nat.ltb 1 (metric_len init)).
+        * intros H. injection H as <-. apply Forall_forall. intros tg Hin. apply in_map_iff in Hin.
+          destruct Hin as [d [<- Hd]]. apply step_graph; [exact E|]. rewrite Forall_forall in Fb. auto.
+        * destruct (negb ok); [discriminate|].
+          destruct (p_final p) as [d|] eqn:Fd; [|discriminate]. intros H. injection H as <-.
+          apply step_graph; auto.
+      + destruct (Nat.ltb 1 (metric_len init)); intros H; injection H as <-.
+        * constructor; [apply evolves_refl|constructor].
+        * apply evolves_refl.
+    - (* iopt *)
+      intros [Ft [Ff Fb]]. unfold tune_lib.
+      destruct (check_possible cfg true (has_params sp g) false init).
+      + simpl. destruct (negb (has_float sp g)); [discriminate|].
+        pose proof (lib_trials_evolves g (metric_len init) (p_trials p) g false (evolves_refl P g) Ft) as E.
+        destruct (lib_trials obj (metric_len init) g (p_trials p) false) as [g1 ok]. simpl in E.
+        destruct (Nat.ltb 1 (metric_len init)).
+        * intros H. injection H as <-. apply Forall_forall. intros tg Hin. apply in_map_iff in Hin.
+          destruct Hin as [d [<- Hd]]. apply step_graph; [exact E|]. rewrite Forall_forall in Fb. auto.
+        * destruct (p_final p) as [d|] eqn:Fd; [|discriminate]. intros H. injection H as <-.
+          apply step_graph; auto.
+      + destruct (Nat.ltb 1 (metric_len init)); intros H; injection H as <-.
+        * constructor; [apply evolves_refl|constructor].
+        * apply evolves_refl.
+  Qed.
+End Tuning.
+
+(* ---------------------------------------------------------------------------------- *)
+(* the final checks                                                                    *)
+(* ---------------------------------------------------------------------------------- *)
+Lemma Qle_bool_refl q : Qle_bool q q = true.
+Proof. apply Qle_bool_iff. apply Qle_refl. Qed.
+
+Lemma metric_le_refl m : (match m with MVec _ => False | _ => True end) -> metric_le m m = true.
+Proof. destruct m; simpl; intros H; try reflexivity; [apply Qle_bool_refl|contradiction]. Qed.
+
+Lemma dominates_irrefl l : Fitness.dominates_loop false l l = false.
+Proof.
+  induction l as [|a l IH]; simpl; [reflexivity|].
+  assert (Fitness.Qlt_b a a = false) as -> by (apply FitnessProofs.Qlt_b_false_iff; apply Qle_refl).
+  exact IH.
+Qed.
+
+Section Final.
+  Variable obj : graph -> fitness.
+  Variable sp : space.
+  Variable cfg : config.
+
+  Notation gmv := (gmv obj).
+
+  Lemma threshold_le i : 0 <= c_dev cfg -> threshold cfg i <= i.
+  Proof.
+    intros H. unfold threshold. pose proof (Qabs_nonneg i) as A.
+    assert (0 <= Qabs i * c_dev cfg / 100).
+    { unfold Qdiv. apply Qmult_le_0_compat; [apply Qmult_le_0_compat; assumption|]. discriminate. }
+    lra.
+  Qed.
+
+  (* everything _single_obj_final_check guarantees *)
+  Lemma single_final_spec g tg fg r :
+    single_final_check obj cfg g (gmv g) tg = Ok (fg, r) ->
+    (fg = tg \/ fg = g) /\ r = RMetric (gmv fg) /\
+    (match gmv g with MVec _ => False | _ => True end) /\
+    (0 <= c_dev cfg -> metric_le (gmv fg) (gmv g) = true).
+  Proof.
+    unfold single_final_check.
+    destruct (gmv tg) as [|o|ov] eqn:Et; destruct (gmv g) as [|i|iv] eqn:Eg; try discriminate.
+    - intros H. injection H as <- <-. rewrite Eg. repeat split; auto.
+    - intros H. injection H as <- <-. rewrite Eg. repeat split; auto. intros _. simpl. apply Qle_bool_refl.
+    - intros H. injection H as <- <-. rewrite Eg. repeat split; auto.
+    - destruct (Qle_bool o (threshold cfg i)) eqn:El; intros H; injection H as <- <-.
+      + rewrite Et. repeat split; auto. intros Hd. simpl. apply Qle_bool_iff.
+        apply Qle_bool_iff in El. pose proof (threshold_le i Hd). lra.
+      + rewrite Eg. repeat split; auto. intros _. simpl. apply Qle_bool_refl.
+  Qed.
+
+  Lemma multi_filter_spec iv tgs : forall kept,
+    multi_filter obj iv tgs = Ok kept ->
+    Forall (fun gm => In (fst gm) tgs /\ snd gm = gmv (fst gm) /\
+                      exists ov, gmv (fst gm) = MVec ov /\ Fitness.dominates_loop false iv ov = false) kept.
+  Proof.
+    induction tgs as [|tg tgs IH]; intros kept; simpl.
+    - intros H. injection H as <-. constructor.
+    - destruct (gmv tg) as [| |ov] eqn:Et; try discriminate.
+      destruct (multi_filter obj iv tgs) as [k|e]; [|discriminate].
+      specialize (IH k eq_refl).
+      assert (IH' : Forall (fun gm => In (fst gm) (tg :: tgs) /\ snd gm = gmv (fst gm) /\
+                      exists ov, gmv (fst gm) = MVec ov /\ Fitness.dominates_loop false iv ov = false) k).
+      { eapply Forall_impl; [|exact IH]. intros gm [A B]. split; [now right|exact B]. }
+      destruct (Fitness.dominates_loop false iv ov) eqn:Ed; intros H; injection H as <-; [exact IH'|].
+      constructor; [|exact IH']. simpl. split; [now left|]. split; [now rewrite Et|]. exists ov. now rewrite Et.
+  Qed.
+
+  Lemma map_snd_gmv (l : list (graph * metric)) :
+    Forall (fun gm => snd gm = gmv (fst gm)) l -> map snd l = map gmv (map fst l).
+  Proof. induction 1 as [|a l E _ IH]; [reflexivity|]. cbn [map]. now rewrite E, IH. Qed.
+
+  Lemma multi_final_spec g tgs fgs r :
+    multi_final_check obj g (gmv g) tgs = Ok (fgs, r) ->
+    exists iv, gmv g = MVec iv /\ fgs <> [] /\ r = RList (map gmv fgs) /\
+    Forall (fun fg => (In fg tgs \/ fg = g) /\
+                      exists ov, gmv fg = MVec ov /\ Fitness.dominates_loop false iv ov = false) fgs.
+  Proof.
+    unfold multi_final_check. destruct (gmv g) as [| |iv] eqn:Eg; try discriminate.
+    destruct (multi_filter obj iv tgs) as [kept|e] eqn:Em; [|discriminate].
+    pose proof (multi_filter_spec iv tgs kept Em) as S.
+    destruct kept as [|gm kept].
+    - intros H. injection H as <- <-. exists iv. repeat split; [discriminate|simpl; now rewrite Eg|].
+      constructor; [|constructor]. split; [now right|]. exists iv. split; [exact Eg|apply dominates_irrefl].
+    - intros H. injection H as <- <-. exists iv. repeat split; [discriminate| |].
+      + f_equal. apply (map_snd_gmv (gm :: kept)). eapply Forall_impl; [|exact S]. intros a [_ [E _]]. exact E.
+      + apply Forall_forall. intros fg Hin. change (In fg (map fst (gm :: kept))) in Hin.
+        apply in_map_iff in Hin. destruct Hin as [a [<- Ha]].
+        rewrite Forall_forall in S. destruct (S a Ha) as [A [_ B]]. split; [now left|exact B].
+  Qed.
+
+  (* ---- the theorems about tune ---- *)
+  Section WithP.
+    Variable P : nat -> string -> string -> value -> Prop.
+
+    Theorem tune_evolves p g o :
+      proposer_ok sp cfg P g p -> tune obj sp cfg p g = Ok o -> Forall (evolves P g) (out_graphs o).
+    Proof.
+      intros Hok. unfold tune.
+      destruct (run_tune obj sp cfg p (gmv g) g) as [t|e] eqn:Er; [|discriminate].
+      pose proof (run_tune_evolves obj sp cfg P g p _ t Hok Er) as E.
+      destruct (multi_mode cfg (gmv g)).
+      - destruct t as [tg|tgs]; [discriminate|].
+        destruct (multi_final_check obj g (gmv g) tgs) as [[fgs r]|e] eqn:Ef; [|discriminate].
+        intros H. injection H as <-. simpl.
+        destruct (multi_final_spec g tgs fgs r Ef) as [iv [_ [_ [_ F]]]].
+        apply Forall_forall. intros fg Hin. rewrite Forall_forall in F. destruct (F fg Hin) as [[A|A] _].
+        + rewrite Forall_forall in E. auto.
+        + subst. apply evolves_refl.
+      - destruct t as [tg|tgs]; [|discriminate].
+        destruct (single_final_check obj cfg g (gmv g) tg) as [[fg r]|e] eqn:Ef; [|discriminate].
+        intros H. injection H as <-. simpl.
+        destruct (single_final_spec g tg fg r Ef) as [[A|A] _]; subst; constructor; auto using evolves_refl.
+    Qed.
+  End WithP.
+
+  (* shape of a successful outcome *)
+  Lemma tune_shape p g o :
+    tune obj sp cfg p g = Ok o ->
+    out_init_metric o = gmv g /\
+    if out_multi o then
+      exists iv, gmv g = MVec iv /\ out_graphs o <> [] /\ out_reported o = RList (map gmv (out_graphs o)) /\
+      Forall (fun fg => exists ov, gmv fg = MVec ov /\ Fitness.dominates_loop false iv ov = false) (out_graphs o)
+    else
+      exists fg, out_graphs o = [fg] /\ out_reported o = RMetric (gmv fg) /\
+      (0 <= c_dev cfg -> metric_le (gmv fg) (gmv g) = true).
+  Proof.
+    unfold tune.
+    destruct (run_tune obj sp cfg p (gmv g) g) as [t|e] eqn:Er; [|discriminate].
+    destruct (multi_mode cfg (gmv g)).
+    - destruct t as [tg|tgs]; [discriminate|].
+      destruct (multi_final_check obj g (gmv g) tgs) as [[fgs r]|e] eqn:Ef; [|discriminate].
+      intros H. injection H as <-. simpl. split; [reflexivity|].
+      destruct (multi_final_spec g tgs fgs r Ef) as [iv [A [B [C F]]]].
+      exists iv. repeat split; auto. eapply Forall_impl; [|exact F]. intros fg [_ X]. exact X.
+    - destruct t as [tg|tgs]; [|discriminate].
+      destruct (single_final_check obj cfg g (gmv g) tg) as [[fg r]|e] eqn:Ef; [|discriminate].
+      intros H. injection H as <-. simpl. split; [reflexivity|].
+      destruct (single_final_spec g tg fg r Ef) as [_ [B [_ D]]]. exists fg. auto.
+  Qed.
+End Final.
